@@ -45,6 +45,7 @@ type Scn struct {
 	Mode   string   `json:"mode"`   // matcher read style
 	PLen   int      `json:"plen"`
 	FIN    bool     `json:"fin"`
+	TLS12  bool     `json:"tls12,omitempty"` // the client speaks TLS 1.2: crypto/tls's server then returns the last bytes together with io.EOF when close_notify follows them
 }
 
 const ppHeader = "PROXY TCP4 198.51.100.1 203.0.113.2 1111 2222\r\n"
@@ -238,7 +239,12 @@ func execute(x *explore.Exec, sc *Scn, b *built, rep *runner.Report) {
 			if len(outer) > 0 {
 				dup.C.Write(outer)
 			}
-			tc := tls.Client(dup.C, htls.ClientConfig)
+			ccfg := htls.ClientConfig
+			if sc.TLS12 {
+				ccfg = ccfg.Clone()
+				ccfg.MaxVersion = tls.VersionTLS12
+			}
+			tc := tls.Client(dup.C, ccfg)
 			if clientErr = tc.Handshake(); clientErr != nil {
 				return
 			}
@@ -255,6 +261,7 @@ func execute(x *explore.Exec, sc *Scn, b *built, rep *runner.Report) {
 		outer = append(outer, P...)
 		sconn = hm.NewSConn(x, outer, sc.FIN)
 		sconn.Menu = menu()
+		sconn.EOFWithData = true
 		if scaled && len(outer) <= 12 {
 			sconn.Menu = nil
 		}
@@ -457,6 +464,11 @@ func scenarios(tier string, yield func(any) bool) {
 								if !yield(&Scn{Stages: stages, Layout: layout, KProf: kp, Mode: modes[n%4], PLen: l, FIN: fin}) {
 									return
 								}
+								if isTLS && fin && (l <= c+1 || tier == "thorough") {
+									if !yield(&Scn{Stages: stages, Layout: layout, KProf: kp, Mode: modes[n%4], PLen: l, FIN: fin, TLS12: true}) {
+										return
+									}
+								}
 							}
 						}
 					}
@@ -491,7 +503,7 @@ func main() {
 	runner.Main(&runner.Harness{
 		ID:    "C01",
 		Level: "model_checking",
-		Rule: "handler chains built from the shipped wrapping handlers (proxy_protocol, tls, throttle, tee, subroute) + consume + terminal recorder/echo, as one route or one route per stage, matchers needing 1..3, >half-limit or limit-3 bytes in 4 read styles; position-coded payloads of the boundary lengths {0,1,c-1,c,c+1,2c,M-1,M,M+1,M+c,3M}; half-close or silence; read segmentations from the menu {rest,1,7,c-1,c,c+1,4096,4097} with bounded deviations (all segmentations for streams <=12 bytes with scaled constants); " + part +
+		Rule: "handler chains built from the shipped wrapping handlers (proxy_protocol, tls, throttle, tee, subroute) + consume + terminal recorder/echo, as one route or one route per stage, matchers needing 1..3, >half-limit or limit-3 bytes in 4 read styles; position-coded payloads of the boundary lengths {0,1,c-1,c,c+1,2c,M-1,M,M+1,M+c,3M}; half-close or silence (the last bytes alone or together with io.EOF; TLS 1.3 and TLS 1.2 clients); read segmentations from the menu {rest,1,7,c-1,c,c+1,4096,4097} with bounded deviations (all segmentations for streams <=12 bytes with scaled constants); " + part +
 			"; non-trivial = executions in which a consuming handler actually ran and its bytes were compared",
 		Assumptions: []string{
 			"the TLS client is crypto/tls over an in-memory duplex whose server side only observes the client at quiescence (deterministic Kahn network)",
@@ -508,8 +520,8 @@ func main() {
 			defer b.cancel()
 			ex := explore.New(bounds(tier, sc))
 			ex.Stop = rep.Expired
-			ex.Explore(func(x *explore.Exec) { execute(x, sc, b, rep) })
-			rep.AddStats(sc, &ex.Stats)
+			var seq runner.Seq // the executions share the provisioned handler chain
+			seq.Explore(ex, sc, rep, func(x *explore.Exec) { execute(x, sc, b, rep) })
 		},
 		DecodeScenario: func(raw json.RawMessage) (any, error) {
 			sc := &Scn{}
@@ -520,6 +532,16 @@ func main() {
 			b := build(sc)
 			defer b.cancel()
 			ex := explore.New(bounds("quick", sc))
+			return ex.RunOnce(choices, func(x *explore.Exec) { execute(x, sc, b, runner.NewReport()) }).Failures
+		},
+		ReplayH: func(hist []runner.HistItem, scAny any, choices []int) []explore.Failure {
+			sc := scAny.(*Scn)
+			b := build(sc)
+			defer b.cancel()
+			ex := explore.New(bounds("quick", sc))
+			for _, it := range hist {
+				ex.RunOnce(it.Choices, func(x *explore.Exec) { execute(x, sc, b, runner.NewReport()) })
+			}
 			return ex.RunOnce(choices, func(x *explore.Exec) { execute(x, sc, b, runner.NewReport()) }).Failures
 		},
 		Budget: func(tier string) time.Duration {
